@@ -40,6 +40,20 @@ theorem segStem_left (a b c d xj : Rat) : segStem a b c d xj xj = 0 := by
   unfold segStem; ring
 
 
+/-- the exact integral of the cubic over a range of width `w` starting `t` to the right of the left knot, in the Taylor/Horner
+    form of the pending repair C08-2: `w·(P(t) + w·(P'(t)/2 + w·(P''(t)/6·… )))` -/
+def segInteg (a b c d t w : Rat) : Rat :=
+  w * ((((a * t + b) * t + c) * t + d) + w * (((3 * a * t + 2 * b) * t + c) / 2 + w * ((3 * a * t + b) / 3 + w * a / 4)))
+
+/-- the Taylor form is the stem-function difference (`stem_shift_noop` generalised: any reference point of the antiderivative
+    gives the same integral), so the repair is value-neutral over the rationals and every `integ_*` theorem carries over -/
+theorem segInteg_eq_stem (a b c d xj xl w : Rat) :
+    segInteg a b c d (xl - xj) w = segStem a b c d xj (xl + w) - segStem a b c d xj xl := by
+  unfold segInteg segStem; ring
+
+/-- applying the prefactor once to the sum is the same as applying it to every stem value -/
+theorem pref_once (p s1 r1 s2 r2 : Rat) : p * ((r1 - s1) + (r2 - s2)) = (p * r1 - p * s1) + (p * r2 - p * s2) := by ring
+
 /-- `integ_deriv_upper`: difference-quotient identity.  The increment of the stem function is
     `δ·P(X)` plus `δ²` times a polynomial, so its derivative w.r.t. the upper limit is `P(X)`,
     the value `Interpolate` returns (and the higher terms are `Derivative(·,1..3)`). -/
